@@ -381,7 +381,7 @@ type mmachine struct {
 	heapClean bool // no Delete so far: Put alone must keep the min-heap order
 
 	innerDeletes, twoChildDeletes, deletes, puts, updates int
-	iterStepsAfterMutation, iterSteps, maxHeight           int
+	iterStepsAfterMutation, iterSteps, maxHeight          int
 	heapViolationsAfterDelete                             int
 }
 
@@ -672,7 +672,7 @@ type imachine struct {
 	dead     bool
 
 	innerDeletes, twoChildDeletes, deletes, branches, rechecks, iterSteps, maxHeight int
-	heapViolationsAfterDelete                                                     int
+	heapViolationsAfterDelete                                                        int
 }
 
 const maxVersions = 200
